@@ -27,6 +27,16 @@ def main():
     from sim.iso import fork_call
 
     seams.world_init()
+    # import every engine now, so that the forked state does not depend on job order
+    import pkgutil
+
+    import checks
+
+    for m in sorted(pkgutil.iter_modules(checks.__path__), key=lambda m: m.name):
+        try:
+            importlib.import_module("checks." + m.name)
+        except Exception:  # noqa
+            pass
     gc.collect()
     gc.freeze()
     hello = {
